@@ -1,8 +1,9 @@
 #!/bin/bash
-# tools/seed_verify.sh <prop> <mK>   confirm a seeded change from /tmp/seed/<prop>/_seed/<mK> in a scratch worktree of /repo HEAD:
+# tools/seed_verify.sh <prop> <mK>   confirm a seeded change from $SEEDROOT(/tmp/seed)/<prop>/_seed/<mK> in a scratch worktree of /repo HEAD
+# (stored as seeded/<prop>_$SEEDTAG<mK>):
 #   patch applies; 45 tests pass with it; demo FAILs with it; demo PASSes without. On success store it in /verif/seeded/<prop>_<mK>/.
 set -u
-P=$1; M=$2; SRC=/tmp/seed/$P/_seed/$M; WT=/tmp/sv_${P}_${M}; OUT=/verif/seeded/${P}_${M}
+P=$1; M=$2; ROOT=${SEEDROOT:-/tmp/seed}; TAG=${SEEDTAG:-}; SRC=$ROOT/$P/_seed/$M; WT=/tmp/sv_${P}_${TAG}${M}; OUT=/verif/seeded/${P}_${TAG}${M}
 rm -rf $WT; git -C /repo worktree prune; git -C /repo worktree add -q --detach $WT HEAD || exit 2
 mkdir -p $WT/_seed/$M && cp $SRC/demo.py $WT/_seed/$M/
 cd $WT
